@@ -21,7 +21,8 @@ META = dict(
     design_ref="section 4 / C07",
     bounds=dict(
         quick="size vectors (1,1),(2,1),(0,2),(2,2),(3,2),(1,1,1),(2,1,1),(2,0,1); scaled buffer capacity C0 in {2,3,4,5} on (2,2),(3,1); "
-              "all pair values >= 0 and delta_empty > 0 symbolic reals; IEEE mode: (2,1),(1,1,1) with every pair value a symbolic binary32 in [0, 2^22] and delta_empty a symbolic binary32 in (0, 1024]",
+              "all pair values >= 0 and delta_empty > 0 symbolic reals; public path valid_alignments(continuum) for ordinal / precomputed / combined-ordinal / levenshtein "
+              "dissimilarities declaring more categories than the continuum uses, on (2,1),(1,1,1) against the unit-to-unit form d(); IEEE mode: (2,1),(1,1,1) with every pair value a symbolic binary32 in [0, 2^22] and delta_empty a symbolic binary32 in (0, 1024]",
         thorough="+ (3,3),(2,2,1),(1,1,1,1),(4,2); scaled capacity C0 in {1,2,3,5} on (3,2),(2,2,1); semi-symbolic (2,2,2) and (1,1,1,1,1); "
                  "real capacity 10000 crossed concretely on the real build (2x125 units) as translator validation; IEEE mode: + (2,2), and (1,1,1,1),(1,1,1,1,1) with concrete far-apart pairs"),
     outside="more than 4 fully symbolic annotators or > 12 symbolic branch decisions per run; float32 rounding of sums outside the IEEE configurations; "
